@@ -42,7 +42,10 @@ def native_script(mode, defp, period_enc):
 
 
 class _Request(Contract):
-    prop = ("C03", "C02")
+    # ADD / DIVIDE requests also carry: C01 / C02 (values obtained from calculate are not written in place), C16 (summing a spread
+    # input over its period goes through these pieces), C17 (every piece is read through calculate, so it is traced), C18 (a failing
+    # piece leaves the others as they were)
+    prop = ("C03", "C02", "C01", "C16", "C17", "C18")
     top_level = True
     cases = tuple((d, u) for d in UNITS for u in UNITS)
     mode = None
